@@ -375,7 +375,15 @@ def check_oob_run(ctx, s, f, run, pk, okey, what, key0, p, K):
     rets = [o for o in run["outs"] if o["k"] == "ret"]
     decided = [o for o in run["outs"] if not o.get("und")]
     if rets:
-        ctx.ob(p, okey, False, "index >= %d can return normally from %s of %s (no profile-independent bounds check)" % (K, what, key0))
+        sure = [o for o in rets if not str(o.get("imp", "0")) == "1"]
+        if not sure:
+            ctx.ob(p, okey, None, "index >= %d may return normally from %s of %s, but only on a path the analysis could not resolve" % (K, what, key0))
+            return
+        how = ""
+        preds = [c for c in sure[0].get("conds", []) if "pred" in c]
+        if preds:
+            how = " (e.g. for the indices with %s = %s)" % (json.dumps(preds[-1]["pred"])[:80], preds[-1]["is"])
+        ctx.ob(p, okey, False, "index >= %d can return normally from %s of %s%s: no profile-independent bounds check stops it" % (K, what, key0, how))
         return
     if not decided:
         ctx.ob(p, okey, None, "no decided outcome for the out-of-range class")
